@@ -163,6 +163,8 @@ pub struct St {
     pub last_added: bool,
     /// receiver location currently passed to action()
     pub rx: (f64, f64),
+    /// the event history is part of the key: no two paths merge (for state the public API cannot show)
+    pub path_key: bool,
     key: Arc<Vec<u8>>,
 }
 
@@ -183,6 +185,11 @@ impl St {
         }
         k.extend_from_slice(&self.rx.0.to_bits().to_le_bytes());
         k.extend_from_slice(&self.rx.1.to_bits().to_le_bytes());
+        if self.path_key {
+            for h in &self.hist {
+                k.extend_from_slice(&h.to_le_bytes());
+            }
+        }
         k.push(self.viol.len() as u8);
         for v in &self.viol {
             k.push(v.0);
@@ -218,6 +225,8 @@ pub struct Tracker {
     pub frame_step_ns: u64,
     /// which property's oracles decide (12, 13, 14, 15)
     pub prop: u8,
+    /// explore paths, not states (see St::path_key)
+    pub path_key: bool,
     pub transitions: Arc<AtomicU64>,
     pub witnesses: Arc<BTreeMap<&'static str, AtomicU64>>,
     pub ambiguous: Arc<AtomicU64>,
@@ -685,7 +694,7 @@ impl Model for Tracker {
     type Action = usize;
 
     fn init_states(&self) -> Vec<St> {
-        let mut s = St { real: Airplanes::new(), model: MState::default(), now: 0, depth: 0, viol: vec![], hist: vec![], last_added: false, rx: self.rx, key: Arc::new(vec![]) };
+        let mut s = St { real: Airplanes::new(), model: MState::default(), now: 0, depth: 0, viol: vec![], hist: vec![], last_added: false, rx: self.rx, path_key: self.path_key, key: Arc::new(vec![]) };
         s.rekey();
         vec![s]
     }
@@ -898,12 +907,19 @@ fn tracker(alphabet: Vec<Ev>, rx: (f64, f64), range: f64, step: u64, prop: u8) -
         range,
         frame_step_ns: step,
         prop,
+        path_key: false,
         transitions: Arc::new(AtomicU64::new(0)),
         witnesses: new_witnesses(),
         ambiguous: Arc::new(AtomicU64::new(0)),
         max_depth: Arc::new(AtomicU64::new(0)),
         found: Arc::new(std::sync::Mutex::new(vec![])),
     }
+}
+
+/// The same model explored path by path: states reached by different histories are never merged, so state that the
+/// public API (and therefore the state key) cannot show - a private memo, a cache - cannot hide behind a merge.
+fn tracker_paths(alphabet: Vec<Ev>, rx: (f64, f64), range: f64, step: u64, prop: u8) -> Tracker {
+    Tracker { path_key: true, ..tracker(alphabet, rx, range, step, prop) }
 }
 
 fn finish(run: Run, outs: &[(String, Outcome)], extra_assumptions: Vec<String>) -> i32 {
@@ -990,6 +1006,10 @@ pub fn c12(tier: Tier) -> i32 {
         let de = if tier.thorough() { 7 } else { 5 };
         let o = explore(&run, &format!("C12/expiry/d{de}"), tracker(alphabet_c12_expiry(), (35.0, -80.0), 500.0, 1_000_000_000, 12), de);
         outs.push(("expiry".into(), o));
+        // the same alphabet path by path (no merging): hidden per-tracker state, e.g. a lookup memo that survives prune
+        let dp = if tier.thorough() { 6 } else { 5 };
+        let o = explore(&run, &format!("C12/expiry-paths/d{dp}"), tracker_paths(alphabet_c12_expiry(), (35.0, -80.0), 500.0, 1_000_000_000, 12), dp);
+        outs.push(("expiry-paths".into(), o));
     }
     let ll = if tier.thorough() { 3000 } else { 1200 };
     let o = lasso(&run, &format!("C12/lasso/p2x{ll}"), tracker(alphabet_c12(), (35.0, -80.0), 500.0, 1_000_000_000, 12), 2, ll);
@@ -1173,6 +1193,12 @@ pub fn c15(tier: Tier) -> i32 {
         let ll = if tier.thorough() { 600 } else { 200 };
         let o = lasso(&run, &format!("C15/T{t}/lasso/p3x{ll}"), tracker(alphabet_c15(t), (35.0, -80.0), 500.0, 0, 15), 3, ll);
         outs.push((format!("T{t}-lasso"), o));
+    }
+    // several thresholds in ONE history (expiry must not remember anything about an earlier call), path by path
+    {
+        let dm = if tier.thorough() { 7 } else { 6 };
+        let o = explore(&run, &format!("C15/mixed-T-paths/d{dm}"), tracker_paths(alphabet_c15_mixed(), (35.0, -80.0), 500.0, 0, 15), dm);
+        outs.push(("mixed-T-paths".into(), o));
     }
     finish(run, &outs, vec!["time only moves through explicit wait events (frames are instantaneous) so that the boundary T - 1 ns / T is hit exactly".into()])
 }
